@@ -25,8 +25,9 @@
 //! * Inside a still-valid TTL: accepted are the rows of the current files, or the rows of the cached listing
 //!   when every file of that listing is still the same version; if the cached listing contains a deleted or
 //!   rewritten file (stale size ⇒ truncated / corrupt read) anything — including an error — is accepted.
-//! Guards: a rewrite whose (size, mtime) equals the previous one is discarded (undetectable by the stated rule;
-//! never generated on purpose); the directory is never empty at a planning event; `collect_statistics = false`
+//! Guards: a new version of a path never repeats the (size, mtime) pair of ANY older version of that path with
+//! different content (two size-only rewrites 1 row → 2 rows → 1 row with restored mtime would — undetectable by
+//! the stated rule; the mtime is then moved past everything the path ever had); the directory is never empty at a planning event; `collect_statistics = false`
 //! is only combined with an inferred schema (so CREATE always lists and the cache model stays exact).
 //!
 //! Non-trivial: a file that an earlier planning event had seen is rewritten, and a later query is checked
@@ -252,6 +253,14 @@ struct Bench {
     next_mtime: u64,
     clock_ms: u64,
     cached: Option<Listing>,
+    /// every (size, mtime, content) a path ever had: a new version must not repeat the (size, mtime) of an older
+    /// version with different content (undetectable by the stated rule)
+    history: BTreeMap<String, Vec<(u64, u64, Content)>>,
+}
+
+fn set_mtime(path: &std::path::Path, mtime_s: u64) -> Result<(), String> {
+    let f = std::fs::File::options().write(true).open(path).map_err(|e| e.to_string())?;
+    f.set_modified(SystemTime::UNIX_EPOCH + Duration::from_secs(mtime_s)).map_err(|e| e.to_string())
 }
 
 impl Bench {
@@ -270,9 +279,22 @@ impl Bench {
         let mtime = EPOCH_S + self.next_mtime;
         self.next_mtime += 7;
         let size = write_file(&self.dir.path().join(&name), self.fmt, content, mtime)?;
+        let mtime = self.disambiguate(&name, size, mtime, norm(content))?;
         self.next_version += 1;
         self.files.insert(name, FileState { version: self.next_version, content: norm(content), size, mtime_s: mtime, seen: false });
         Ok(())
+    }
+    /// make sure (size, mtime) of the version just written differs from every older version of the path with other
+    /// content: if not, move the mtime past everything seen (construction, not rejection); records the version
+    fn disambiguate(&mut self, name: &str, size: u64, mtime: u64, content: Content) -> Result<u64, String> {
+        let h = self.history.entry(name.to_string()).or_default();
+        let mut mtime = mtime;
+        if h.iter().any(|(s, m, c)| *s == size && *m == mtime && *c != content) {
+            mtime = h.iter().map(|x| x.1).max().unwrap_or(mtime).max(mtime) + 1;
+            set_mtime(&self.dir.path().join(name), mtime)?;
+        }
+        h.push((size, mtime, content));
+        Ok(mtime)
     }
     fn current_listing(&self) -> Vec<(String, u64)> {
         self.files.iter().map(|(n, f)| (n.clone(), f.version)).collect()
@@ -368,7 +390,7 @@ impl Property for C40b {
             Ok(d) => d,
             Err(e) => return CaseResult::inconclusive(format!("tempdir: {e}")),
         };
-        let mut b = Bench { dir, fmt: case.format, files: BTreeMap::new(), deleted_names: vec![], next_file: 0, next_version: 0, next_mtime: 0, clock_ms: 0, cached: None };
+        let mut b = Bench { dir, fmt: case.format, files: BTreeMap::new(), deleted_names: vec![], next_file: 0, next_version: 0, next_mtime: 0, clock_ms: 0, cached: None, history: BTreeMap::new() };
         let mut labels: BTreeSet<String> = BTreeSet::new();
         labels.insert(format!("fmt:{:?}", case.format));
         for c in case.initial.iter().take(3) {
@@ -508,6 +530,10 @@ impl Property for C40b {
                     let size = match write_file(&b.dir.path().join(&name), b.fmt, new, mtime) {
                         Ok(s) => s,
                         Err(e) => return CaseResult::inconclusive(format!("write: {e}")).labels(labels),
+                    };
+                    let mtime = match b.disambiguate(&name, size, mtime, new) {
+                        Ok(m) => m,
+                        Err(e) => return CaseResult::inconclusive(format!("set mtime: {e}")).labels(labels),
                     };
                     if size == old.size && mtime == old.mtime_s {
                         return CaseResult::discard("rewrite with unchanged size and mtime (undetectable)").labels(labels);
